@@ -226,6 +226,7 @@ func runC18(rcx *RunCtx) {
 				req := x.c.Send(x.c.Tag(), &rc.Opaque{Type: m.MsgType(), Body: body[:cut]})
 				simrt.WaitQuiescent()
 				rcx.Count("short_frames", 1)
+				simrt.Fault("peer.frame-cut-short")
 				if req == nil || req.Reply == nil {
 					find("no-reply", "short-frame", "a %s frame cut to %d of %d body bytes was not answered", rc.TypeName(m.MsgType()), cut, len(body))
 					continue
